@@ -52,7 +52,7 @@ func (tag *Tag) reqproc() {
 		case r := <-tag.respchan:
 			rc := r.Rc
 			fid := r.fid
-			err := r.Rc.Type == Rerror
+			err := rc == nil || rc.Type == Rerror // rc is nil when the connection failed
 
 			switch r.Tc.Type {
 			case Tauth:
